@@ -111,6 +111,12 @@ def cases(tier, seed):
     for kind in ALL_BASE_KINDS:
         for ph in PHASES + ('act',):
             yield {'fam': 'kinds', 'base': kind, 'phase': ph}
+    # here-documents in the [act] phase (stdin of the action, last argument of the action): the body is one exact string,
+    # also where its lines are empty or begin with `#`
+    for body_kind in ('plain', 'blank', 'hash', 'indented-hash', 'blank-and-hash', 'only-blank'):
+        for use in ('stdin', 'arg'):
+            for actor in ('default', 'command'):
+                yield {'fam': 'act-heredoc', 'body': body_kind, 'use': use, 'actor': actor}
     # a program run as an instruction that is TERMINATED BY A SIGNAL: there is no exit code 0 - it is a failure like any
     # other (FAIL in [assert], HARD_ERROR elsewhere) unless -ignore-exit-code is given
     for sig in (9, 15, 6, 11, 2, 1):
@@ -1294,6 +1300,55 @@ def _dirs(case, d, sds):
     return P.Dirs(d, sds, os.path.join(d, P.ACT_HOME_DIR) if case.get('split_home') else None)
 
 
+_HEREDOC_BODIES = {'plain': ['line 1', 'line 2'], 'blank': ['line 1', '', 'line 3'], 'hash': ['line 1', '# no comment', 'x'],
+                   'indented-hash': ['a', '   # no comment', 'b'], 'blank-and-hash': ['', '#', '', 'end'],
+                   'only-blank': ['', '']}
+
+
+def run_act_heredoc(desc, ctx):
+    from vf.driver import first_line
+    ses = ctx.get_session()
+    d = ses.new_case_dir({})
+    rec = os.path.join(d, 'rec.jsonl')
+    lines = _HEREDOC_BODIES[desc['body']]
+    text_denoted = ''.join(l + '\n' for l in lines)
+    conf = '[conf]\nactor = command\n' if desc['actor'] == 'command' else ''
+    if desc['use'] == 'stdin':
+        act = '%s %s %s\n -stdin <<EOF\n%sEOF\n' % (probe.PROBE, rec, probe.ctrl(id='a', stdin=True), text_denoted)
+    else:
+        act = '%s %s %s first <<EOF\n%sEOF\n' % (probe.PROBE, rec, probe.ctrl(id='a'), text_denoted)
+    text = conf + '[act]\n' + act
+    with open(os.path.join(d, 't.case'), 'w') as f:
+        f.write(text)
+    r = ses.run([os.path.join(d, 't.case')], cwd=d, mode='normal')
+    ctx.count('c10.act_heredoc_cases')
+    viol, inconc = [], []
+    if r.timed_out:
+        inconc.append('watchdog')
+    else:
+        recs = probe.read_records(rec)
+        ident = first_line(r.out)
+        if r.exc is not None or (ident, r.rc) != ('PASS', 0) or len(recs) != 1:
+            viol.append({'what': 'C10 [act-heredoc] %s/%s: valid case with a here-document in [act] gives %s/%r, %d process(es) '
+                                 'started' % (desc['use'], desc['body'], ident, r.rc, len(recs)),
+                         'detail': {'case_text': text, 'mechanism': 'act-heredoc-outcome', 'observed': r.brief()}})
+        else:
+            got = recs[0]['stdin'] if desc['use'] == 'stdin' else (recs[0]['argv'][-1] if recs[0]['argv'] else None)
+            if isinstance(got, bytes):
+                got = got.decode('utf-8', 'replace')
+            if got != text_denoted:
+                viol.append({'what': 'C10 [act-heredoc] the %s of the action given as a here-document in [act] (%s lines): the '
+                                     'process received %r, the here-document denotes %r' % (
+                                         'stdin' if desc['use'] == 'stdin' else 'last argument', desc['body'], got,
+                                         text_denoted),
+                             'detail': {'case_text': text, 'mechanism': 'act-heredoc', 'denoted': text_denoted,
+                                        'received': got, 'body_lines': lines}})
+    ses.clean_tmp()
+    ses.drop(d)
+    return {'classes': [('act-heredoc', desc['body'], desc['use'], desc['actor'])], 'viol': viol, 'inconclusive': inconc,
+            'evaluations': 1}
+
+
 def run_signal(desc, ctx):
     from vf.driver import first_line
     ses = ctx.get_session()
@@ -1352,6 +1407,8 @@ def run_signal(desc, ctx):
 def run_case(desc, ctx):
     if desc.get('fam') == 'signal':
         return run_signal(desc, ctx)
+    if desc.get('fam') == 'act-heredoc':
+        return run_act_heredoc(desc, ctx)
     from vf.driver import first_line
     ses = ctx.get_session()
     b = build(desc)
@@ -1460,4 +1517,17 @@ def _known_stdin_raw_part_first(v):
     return d.get('observation_equals_emulation_of') == 'stdin-raw-part-first'
 
 
-KNOWN = {'stdin-raw-part-first': _known_stdin_raw_part_first}
+def _known_act_heredoc_lines_dropped(v):
+    """A here-document in the [act] phase (command line actor): the lines of its body that are empty or begin with `#`
+    (optionally preceded by space) are removed before the program is parsed - the act phase's own rule for empty and
+    comment lines is applied to the body of the here-document."""
+    d = v.get('detail') or {}
+    if d.get('mechanism') != 'act-heredoc':
+        return False
+    lines = d.get('body_lines') or []
+    kept = [l for l in lines if l.strip() != '' and not l.lstrip().startswith('#')]
+    return kept != lines and d.get('received') == ''.join(l + '\n' for l in kept)
+
+
+KNOWN = {'stdin-raw-part-first': _known_stdin_raw_part_first,
+         'act-heredoc-empty-and-hash-lines-dropped': _known_act_heredoc_lines_dropped}
